@@ -411,7 +411,10 @@ package fosite
 // TRUSTED for now (range over a map is not yet verifiable): Merge on the reference implementation.
 //@ func (*Request).Merge
 //@   trusted
-//@   modifies a.ID, a.RequestedAt, a.Client, a.Session, a.RequestedScope, a.GrantedScope, a.RequestedAudience, a.GrantedAudience
+//@   modifies a.ID, a.RequestedAt, a.Client, a.Session, a.RequestedScope, a.GrantedScope, a.RequestedAudience, a.GrantedAudience, mapof(a.Form)
+//@   ensures forall k string :: (k in a.Form) == (old(k in a.Form) || k in request.GetRequestForm())
+//@   ensures forall k string :: a.Form != request.GetRequestForm() && k in request.GetRequestForm() ==> a.Form[k] == request.GetRequestForm()[k]
+//@   ensures forall k string :: !(k in request.GetRequestForm()) ==> a.Form[k] == old(a.Form[k])
 //@   ensures a.ID == request.GetID() && a.RequestedAt == request.GetRequestedAt() && a.Client == request.GetClient() && a.Session == request.GetSession()
 //@   ensures forall x string :: insl(a.GrantedScope, x) <==> (insl(old(a.GrantedScope), x) || insl(request.GetGrantedScopes(), x))
 //@   ensures forall x string :: insl(a.RequestedScope, x) <==> (insl(old(a.RequestedScope), x) || insl(request.GetRequestedScopes(), x))
@@ -424,6 +427,7 @@ package fosite
 //@   modifies par_exists, faults
 //@   ensures [C17.one-time] result0 ==> err == nil && old(par_exists[uri]) && !par_exists[uri]
 //@   ensures [C17.client-bound] result0 ==> old(par_client[uri]) == old(formget(r.Form, "client_id"))
+//@   ensures [C17.authoritative] result0 ==> (forall k string :: k in old(par_req[uri]).GetRequestForm() && request.Form != old(par_req[uri]).GetRequestForm() ==> k in request.Form && request.Form[k] == old(par_req[uri]).GetRequestForm()[k])
 //@   ensures [C17.unexpired] result0 && old(par_exp[uri]) != 0 ==> $nowcalls > old($nowcalls) && old(par_exp[uri]) >= $now
 //@   ensures [C17.authoritative] result0 ==> request.RedirectURI == old(par_req[uri]).GetRedirectURI() && request.ResponseTypes == old(par_req[uri]).GetResponseTypes() && request.State == old(par_req[uri]).GetState() && request.ResponseMode == old(par_req[uri]).GetResponseMode() && request.Client == old(par_req[uri]).GetClient() && request.Session == old(par_req[uri]).GetSession()
 //@   ensures [C17.authoritative] result0 ==> (forall x string :: insl(old(par_req[uri]).GetRequestedScopes(), x) ==> insl(request.RequestedScope, x)) && (forall x string :: insl(old(par_req[uri]).GetRequestedAudience(), x) ==> insl(request.RequestedAudience, x))
